@@ -22,7 +22,28 @@ Definition aid := nat.   (* atom object identity = index into the heap *)
 Definition lid := nat.   (* lattice object identity *)
 Definition hid := nat.   (* handle of a live object = index into objs *)
 
-Record cell := mkCell { c_tag : Z; c_lat : option lid }.
+(* what an atom carries besides its identity and lattice reference: element, label, position and occupancy,
+   each abstracted to an integer tag (the harness maps tags to symbols / strings / exact binary fractions) *)
+Record pay := mkPay { p_elem : Z; p_label : Z; p_xyz : Z; p_occ : Z }.
+Definition pay0 : pay := mkPay 0 0 0 0.
+
+(* a default atom with label and position tag t: element 0, occupancy 8/8 *)
+Definition lab (t : Z) : pay := mkPay 0 t t 8.
+
+Inductive col := ColElem | ColLabel | ColXyz | ColOcc.
+
+Definition get_col (c : col) (p : pay) : Z :=
+  match c with ColElem => p_elem p | ColLabel => p_label p | ColXyz => p_xyz p | ColOcc => p_occ p end.
+
+Definition set_col (c : col) (v : Z) (p : pay) : pay :=
+  match c with
+  | ColElem => mkPay v (p_label p) (p_xyz p) (p_occ p)
+  | ColLabel => mkPay (p_elem p) v (p_xyz p) (p_occ p)
+  | ColXyz => mkPay (p_elem p) (p_label p) v (p_occ p)
+  | ColOcc => mkPay (p_elem p) (p_label p) (p_xyz p) v
+  end.
+
+Record cell := mkCell { c_tag : pay; c_lat : option lid }.
 
 Inductive obj :=
 | OStruct (items : list aid) (lat : lid)
@@ -47,7 +68,7 @@ Definition current : variant := mkVar false true 0.
 Definition pinned (fuel : nat) : variant := mkVar true false fuel.
 
 Inductive exn := EIndex | EValue | EType | EBadObj.
-Inductive result := RNone | RAtom (a : aid) | RObj (h : hid).
+Inductive result := RNone | RAtom (a : aid) | RObj (h : hid) | RVals (l : list Z).
 Inductive outcome := Done (r : result) | Raised (e : exn) | Diverges.
 
 (* ---------------------------------------------------------------- generic list helpers *)
@@ -165,8 +186,8 @@ Close Scope Z_scope.
 
 Definition get_obj (w : world) (h : hid) : option obj := nth_error (objs w) h.
 
-Definition tag_of (w : world) (a : aid) : Z :=
-  match nth_error (heap w) a with Some c => c_tag c | None => 0%Z end.
+Definition tag_of (w : world) (a : aid) : pay :=
+  match nth_error (heap w) a with Some c => c_tag c | None => pay0 end.
 
 Definition lat_of (w : world) (a : aid) : option lid :=
   match nth_error (heap w) a with Some c => c_lat c | None => None end.
@@ -180,8 +201,8 @@ Definition push_obj (o : obj) (w : world) : hid * world :=
 Definition set_cell_lat (a : aid) (l : option lid) (w : world) : world :=
   mkW (upd_nth a (fun c => mkCell (c_tag c) l) (heap w)) (nlat w) (objs w) (g_repoint w) (g_dup w).
 
-Definition set_cell_tag (a : aid) (t : Z) (w : world) : world :=
-  mkW (upd_nth a (fun c => mkCell t (c_lat c)) (heap w)) (nlat w) (objs w) (g_repoint w) (g_dup w).
+Definition set_cell_tag (a : aid) (f : pay -> pay) (w : world) : world :=
+  mkW (upd_nth a (fun c => mkCell (f (c_tag c)) (c_lat c)) (heap w)) (nlat w) (objs w) (g_repoint w) (g_dup w).
 
 Definition alloc_cell (c : cell) (w : world) : aid * world :=
   (length (heap w), mkW (heap w ++ [c]) (nlat w) (objs w) (g_repoint w) (g_dup w)).
@@ -222,7 +243,7 @@ Definition relat (h : hid) (L : lid) (w : world) : world :=
 Inductive src :=
 | Keep (a : aid)     (* the object itself, its lattice reference is updated *)
 | Dup (a : aid)      (* a new copy: Atom(a) / copy.copy(a) *)
-| Fresh (t : Z).     (* Atom(label=t, lattice=...) *)
+| Fresh (t : pay).   (* Atom(...payload..., lattice=...) *)
 
 Definition keeps (l : list src) : list aid :=
   flat_map (fun s => match s with Keep a => [a] | _ => [] end) l.
@@ -302,9 +323,9 @@ Inductive latarg := LatNew | LatOf (h : hid).          (* Lattice(...) | objs[h]
 
 Inductive op :=
 | NewStruct                                            (* Structure() *)
-| NewList (tags : list Z)                              (* [Atom(label=t) for t in tags] *)
+| NewList (tags : list pay)                            (* [Atom(payload) for ...] *)
 | ListOf (l : list aref)                               (* [objs[o][i], ...] *)
-| AddNewAtom (h : hid) (t : Z)                         (* s.addNewAtom(label=t) *)
+| AddNewAtom (h : hid) (t : pay)                       (* s.addNewAtom(payload) *)
 | Construct (s : hid) (l : option latarg)              (* Structure(objs[s] [, lattice=...]) *)
 | Append (h : hid) (a : aref) (copy : bool)
 | Insert (h : hid) (i : Z) (a : aref) (copy : bool)
@@ -334,7 +355,12 @@ Inductive op :=
 | Pickle (h : hid) (hi : bool)                         (* pickle.loads(pickle.dumps(s, proto)), hi: proto >= 2 *)
 | DeepCopy (h : hid)
 | Tolist (h : hid)
-| SetCol (h : hid) (tags : list Z).                    (* s.label = [...] *)
+| SetCol (h : hid) (c : col) (tags : list Z)           (* s.label = [...] / s.element / s.xyz / s.occupancy *)
+| Sort (h : hid) (key : option col) (rev : bool)       (* s.sort(key=..., reverse=...) ; no key: atoms are unorderable *)
+| AssignUniqueLabels (h : hid)
+| GetLast (h : hid)                                    (* s.getLastAtom() *)
+| GetCol (h : hid) (c : col)                           (* s.label / s.element / s.xyz / s.occupancy (read) *)
+| Composition (h : hid).                               (* s.composition *)
 
 Definition resolve_aref (w : world) (r : aref) : option aid :=
   match get_obj w (r_obj r) with
@@ -421,7 +447,7 @@ Fixpoint resolve_lidx (w : world) (old : list aid) (l : list lidx) : option (lis
   | [] => Some []
   | LInt i :: t => option_map (cons i) (resolve_lidx w old t)
   | LLab lb :: t =>
-      match filter (fun i => Z.eqb (tag_of w (nth i old 0)) lb) (seq 0 (length old)) with
+      match filter (fun i => Z.eqb (p_label (tag_of w (nth i old 0))) lb) (seq 0 (length old)) with
       | [i] => option_map (cons (Z.of_nat i)) (resolve_lidx w old t)
       | _ => None
       end
@@ -439,11 +465,48 @@ Fixpoint norm_all (len : nat) (l : list Z) : option (list nat) :=
 Definition mask_indices (m : list bool) : list nat :=
   flat_map (fun p : nat * bool => if snd p then [fst p] else []) (combine (seq 0 (length m)) m).
 
-Fixpoint set_tags (prs : list (aid * Z)) (w : world) : world :=
+Fixpoint set_tags (c : col) (prs : list (aid * Z)) (w : world) : world :=
   match prs with
   | [] => w
-  | (a, t) :: r => set_tags r (set_cell_tag a t w)
+  | (a, t) :: r => set_tags c r (set_cell_tag a (set_col c t) w)
   end.
+
+(* stable insertion sort of positions by key (list.sort is stable, also with reverse=True) *)
+Fixpoint insert_sorted (before : Z -> Z -> bool) (k : nat -> Z) (x : nat) (l : list nat) : list nat :=
+  match l with
+  | [] => [x]
+  | y :: t => if before (k x) (k y) then x :: y :: t else y :: insert_sorted before k x t
+  end.
+
+Definition sort_positions (rev : bool) (keys : list Z) : list nat :=
+  let k := fun i => nth i keys 0%Z in
+  let before := if rev then Z.geb else Z.leb in
+  fold_right (insert_sorted before k) [] (seq 0 (length keys)).
+
+(* assignUniqueLabels: every distinct atom object, in order, gets <bare element symbol><running number>;
+   the label tag of element e, number n is -(1000 e + n) *)
+Fixpoint count_elem (e : Z) (l : list Z) : Z :=
+  match l with [] => 0%Z | x :: t => ((if Z.eqb x e then 1 else 0) + count_elem e t)%Z end.
+
+Fixpoint unique_labels (w : world) (seen : list aid) (elems : list Z) (its : list aid) : list (aid * Z) :=
+  match its with
+  | [] => []
+  | a :: t =>
+      if memb a seen then unique_labels w seen elems t
+      else let e := p_elem (tag_of w a) in
+           (a, (- (1000 * e + (count_elem e elems + 1)))%Z) :: unique_labels w (a :: seen) (e :: elems) t
+  end.
+
+(* composition: element -> total occupancy, in order of first appearance, every slot counted *)
+Fixpoint add_comp (e o : Z) (acc : list (Z * Z)) : list (Z * Z) :=
+  match acc with
+  | [] => [(e, o)]
+  | (e', o') :: t => if Z.eqb e e' then (e', (o' + o)%Z) :: t else (e', o') :: add_comp e o t
+  end.
+
+Definition composition_of (w : world) (its : list aid) : list Z :=
+  flat_map (fun p : Z * Z => [fst p; snd p])
+           (fold_left (fun acc a => add_comp (p_elem (tag_of w a)) (p_occ (tag_of w a)) acc) its []).
 
 (* pickle round trip on the pinned tree (no __setstate__): protocol 0/1 fills the list directly, every
    atom keeps a copy of its OWN lattice reference; protocol >= 2 appends through extend while the
@@ -752,16 +815,46 @@ Definition step (v : variant) (o : op) (w : world) : world * outcome :=
       | Some (old, _) => let '(hn, w1) := push_obj (OList old) w in (w1, Done (RObj hn))
       | None => bad w
       end
-  | SetCol h tags =>
+  | SetCol h c tags =>
       match get_struct w h with
       | Some (old, _) =>
           match old, tags with
           | [], _ => (w, Done RNone)
-          | _, [t] => (set_tags (map (fun a => (a, t)) old) w, Done RNone)
+          | _, [t] => (set_tags c (map (fun a => (a, t)) old) w, Done RNone)
           | _, _ => if Nat.eqb (length tags) (length old)
-                    then (set_tags (combine old tags) w, Done RNone)
+                    then (set_tags c (combine old tags) w, Done RNone)
                     else (w, Raised EValue)
           end
+      | None => bad w
+      end
+  | Sort h key rev =>
+      match get_struct w h with
+      | Some (old, _) =>
+          match key with
+          | Some c => (install h [] (EPick (sort_positions rev (map (fun a => get_col c (tag_of w a)) old))) w, Done RNone)
+          | None => if Nat.leb (length old) 1 then (w, Done RNone) else (w, Raised EType)
+          end
+      | None => bad w
+      end
+  | AssignUniqueLabels h =>
+      match get_struct w h with
+      | Some (old, _) => (set_tags ColLabel (unique_labels w [] [] old) w, Done RNone)
+      | None => bad w
+      end
+  | GetLast h =>
+      match get_struct w h with
+      | Some (old, _) => match nth_error (rev old) 0 with
+                         | Some a => (w, Done (RAtom a)) | None => (w, Raised EIndex) end
+      | None => bad w
+      end
+  | GetCol h c =>
+      match get_struct w h with
+      | Some (old, _) => (w, Done (RVals (map (fun a => get_col c (tag_of w a)) old)))
+      | None => bad w
+      end
+  | Composition h =>
+      match get_struct w h with
+      | Some (old, _) => (w, Done (RVals (composition_of w old)))
       | None => bad w
       end
   end.
